@@ -210,6 +210,18 @@ func (c *Ctx) Failed() bool { return len(c.fails) > 0 }
 // Trivial marks this execution as trivial for the distinct_nontrivial count.
 func (c *Ctx) Trivial() { c.trivial = true }
 
+// AddExecutions lets a scenario body that enumerates a finite family of
+// independent runs itself (each a complete execution of the implementation)
+// report them, so that the totals count implementation executions.
+func (c *Ctx) AddExecutions(n int64) {
+	if c.keepLog {
+		return
+	}
+	c.st.Executions += n
+	c.st.States += n
+	c.st.Transitions += n
+}
+
 // Count adds to a named anti-vacuity counter.
 func (c *Ctx) Count(name string, n int64) {
 	c.counters[name] += n
